@@ -10,6 +10,7 @@ history events (the same list on every rank, SPMD):
   ['load']                   state_dict() -> deepcopy -> load_state_dict() into a freshly constructed
                              preconditioner (same model), which replaces the old one
   ['reset_batch']
+  ['attempt', nmicro]        nmicro train-mode passes, then reset_batch() instead of step(): an abandoned iteration
   ['sched', step|None]       LambdaParamScheduler.step(step)
 """
 from __future__ import annotations
@@ -176,6 +177,13 @@ def rank_body(cfg, history, W, observe=None, single_union=False, pre_step=None, 
                 model.eval()
                 one_pass(ev, 0)
                 model.train()
+            elif kind == 'attempt':
+                # an abandoned iteration: micro-batches are accumulated, then everything pending is discarded (no step)
+                model.train()
+                model.zero_grad()
+                for mi in range(e[1]):
+                    one_pass(ev, mi)
+                p.reset_batch()
             elif kind == 'state_dict':
                 if e[1] is None or rank in e[1]:
                     p.state_dict(include_factors=(e[2] if len(e) > 2 else True))
